@@ -48,7 +48,7 @@ func (f *FlakyStore) Store(c *lungo.Catalog) error {
 	return f.Inner.Store(c)
 }
 
-var ddl = map[string]bool{"createIndex": true, "dropIndex": true, "dropIndexByKey": true, "dropAllIndexes": true, "drop": true, "dropDatabase": true, "createCollection": true,
+var ddl = map[string]bool{"createIndex": true, "createIndexes": true, "dropIndex": true, "dropIndexByKey": true, "dropAllIndexes": true, "drop": true, "dropDatabase": true, "createCollection": true,
 	"listIndexes": true, "listCollections": true, "estimatedCount": true}
 
 type snapshot struct {
